@@ -651,4 +651,48 @@ Proof.
     rewrite ip_sumn_scale. fold (ip_sum F K nb (fun i => mget A i j)). rewrite (Hcols j Hj). ring.
 Qed.
 
+(* ---------------------------------------------------------------------------------------- *)
+(** * corollaries on general (non uniform-cubic) spaces *)
+
+(** [ip_interp1d_exact] with the span hypothesis discharged: a non-degenerate domain is enough *)
+Theorem ip_interp1d_exact_nu knots degree periodic xs u c :
+  ip_interp1d F K knots degree periodic false xs u = SpOk c ->
+  (periodic = true -> (degree + 1 <= ip_nbasis F K knots degree periodic false)%nat) ->
+  sp_lt K (sp_kn F K knots degree) (sp_kn F K knots (length knots - 1 - degree)) ->
+  forall i, (i < ip_nbasis F K knots degree periodic false)%nat ->
+  sp_nu_eval_1d_scalar F K (nth i xs 0) knots degree c 0 = SpOk (nth i u 0).
+Proof.
+  intros H Hinj Hdom i Hi.
+  assert (Hlen : (2 * degree + 1 < length knots)%nat).
+  { unfold ip_interp1d in H.
+    destruct (ip_interp_many F K knots degree periodic false xs [u]) as [cs| | | |] eqn:E; cbn [sp_bind] in H; try discriminate.
+    destruct (ip_interp_many_spec _ _ _ _ _ _ _ E) as [Hok _]. unfold ip_space_ok in Hok.
+    apply andb_prop in Hok. destruct Hok as [Hok _]. apply andb_prop in Hok. destruct Hok as [_ Hok].
+    apply Nat.leb_le in Hok. lia. }
+  exact (ip_interp1d_exact knots degree periodic false xs u c H Hinj
+           (ip_span_in_range_nu knots degree periodic xs Hlen Hdom) i Hi).
+Qed.
+
+(** a spline whose coefficients are all equal to kappa is the constant kappa on the whole closed domain
+    (polynomials of degree 0 are reproduced everywhere, with [ip_interp1d_const]) *)
+Theorem ip_const_spline_nu knots degree c kappa x :
+  sp_sorted F K knots -> (2 * degree + 1 < length knots)%nat ->
+  sp_lt K (sp_kn F K knots degree) (sp_kn F K knots (S degree)) ->
+  sp_lt K (sp_kn F K knots (length knots - degree - 2)) (sp_kn F K knots (length knots - 1 - degree)) ->
+  sp_le K (sp_kn F K knots degree) x -> sp_le K x (sp_kn F K knots (length knots - 1 - degree)) ->
+  length c = (length knots - degree - 1)%nat -> (forall k, (k < length c)%nat -> nth k c 0 = kappa) ->
+  sp_nu_eval_1d_scalar F K x knots degree c 0 = SpOk kappa.
+Proof.
+  intros Hs Hlen Hfirst Hlast Hlo Hhi Hc Hk.
+  destruct (sp_nu_eval_1d_domain F K HK knots degree c x 0 Hs Hlen Hfirst Hlast Hlo Hhi Hc ltac:(lia) ltac:(lia))
+    as [s [_ [Hr [Hspan [_ [_ E]]]]]].
+  rewrite E. f_equal. cbn [sp_basis_of]. rewrite ip_sumr_sumn.
+  rewrite (ip_sumn_ext (S degree) _ (fun j => kappa * nth j (sp_A22 F K knots degree x s) 0)).
+  2:{ intros j Hj. rewrite Hk by lia. reflexivity. }
+  rewrite ip_sumn_scale.
+  replace (sumn (S degree) (fun j => nth j (sp_A22 F K knots degree x s) 0)) with 1; [ring|].
+  rewrite <- (sp_A22_sum_one F K HK knots degree x s Hs Hspan) by lia.
+  rewrite ip_sumF_sumn, sp_A22_length. reflexivity.
+Qed.
+
 End IpTheory.
